@@ -88,6 +88,8 @@ def main():
             print(f"  -> check {c} {tier}: exit {rc} {kind or ''}")
     finally:
         sh(["git", "-C", "/repo", "checkout", "--", "."])
+        # the evidence files were rewritten by runs against the changed tree: put the committed ones back
+        sh(["git", "-C", str(VERIF), "checkout", "--", "evidence"])
     ran.append("git -C /repo checkout -- .")
     dst = VERIF / "seeded" / sid
     dst.mkdir(parents=True, exist_ok=True)
